@@ -169,26 +169,30 @@ def trees(n, depth, scalars, kind):
         yield (kind, c)
 
 
-def tokens(tree):
-    """token list of a document: (class, role, bytes); names are generated ascending"""
+def tokens(tree, spans=None):
+    """token list of a document: (class, bytes); names are generated ascending.  spans (optional dict) receives
+    node path -> (index of its first token, index of its last token)"""
     out = []
 
-    def emit(v):
+    def emit(v, path):
         k = v[0]
+        first = len(out)
         if k == 'object':
             out.append(('object_begin', bytes([0x40])))
             for i, ch in enumerate(v[1]):
                 out.append(('string', bytes([0x14, 0x01, 0x61 + i])))     # field name
-                emit(ch)
+                emit(ch, path + (i,))
             out.append(('object_end', bytes([0x41])))
         elif k == 'array':
             out.append(('array_begin', bytes([0x42])))
-            for ch in v[1]:
-                emit(ch)
+            for i, ch in enumerate(v[1]):
+                emit(ch, path + (i,))
             out.append(('array_end', bytes([0x43])))
         else:
             out.append((k, SCALARS[k]))
-    emit(tree)
+        if spans is not None:
+            spans[path] = (first, len(out) - 1)
+    emit(tree, ())
     return out
 
 
@@ -406,7 +410,8 @@ class Ref:
 
 # ---- exploration ------------------------------------------------------------------------------------------------------
 def explore(M, tree, md, enums, report):
-    toks = tokens(tree)
+    spans = {}
+    toks = tokens(tree, spans)
     offs = []
     o = 0
     for (_, raw) in toks:
@@ -444,6 +449,13 @@ def explore(M, tree, md, enums, report):
             if ms2[1] - ms[1] != eddepth:
                 report(False, 'depth', api, 'get_depth changes by %+d, the reference cursor says %+d' % (ms2[1] - ms[1], eddepth), trace())
                 continue
+            if api == 'get_raw':
+                # the span get_raw hands back is [cursor before, cursor after): it must be BEGIN .. matching END
+                path, pos = rs[0][-1]
+                b_, e_ = spans[path + (pos,)]
+                if (ms[0], ms2[0]) != (b_, e_ + 1):
+                    report(False, 'position', api, 'the cursor moves from token %d to token %d, the container spans tokens %d..%d' % (ms[0], ms2[0], b_, e_), trace())
+                    continue
             if etype is not None:
                 ct = ms2[2][max(ms2[1] - 1, 0)][2]
                 if ct != enums[KIND_ENUM[etype]]:
@@ -490,7 +502,7 @@ def _explore_part(k):
                     for md in ((need_md, need_md + 1) if tier == 'thorough' else (need_md,)):
                         def report(ok, what, api, msg, seq, tree=tree, md=md):
                             key = (what, api)
-                            if key not in bad or len(seq) < len(bad[key][3]):
+                            if key not in bad or (len(seq), len(show(tree))) < (len(bad[key][3]), len(bad[key][1])):
                                 bad[key] = (msg, show(tree), md, seq)
                         s, e = explore(M, tree, md, enums, report)
                         out['states'] += s
@@ -509,46 +521,57 @@ def show(tree):
     return k[:3]
 
 
+def analyse(mod, tier, prop='C06'):
+    """extract the machine from `mod` and explore it -> (bad, coverage dict)"""
+    lay = Layout(mod)
+    table, modes, stats = c08.extract(mod, lookups=False)
+    flags = stats['level_flags']
+    C = Contracts(mod, LibHooks())
+    enums = C._enums()
+    for k, e in KIND_ENUM.items():
+        need(e in enums, '%s: enumerator %s not found in the debug info' % (prop, e))
+    tvals = sorted({v for n, v in enums.items() if n.startswith('BINSON_TYPE_')})
+    need(len(tvals) >= 8, '%s: only %d binson_type enumerators found' % (prop, len(tvals)))
+    wrappers = {}
+    for api in NAV.values():
+        wrappers[api] = wrapper_summary(mod, api, flags, tvals)
+    cov = {'wrappers': {api: sorted({(tuple(c[0] for c in p['calls']), p['ret']) for ps in w.values() for p in ps}, key=repr)[:12]
+                        for api, w in wrappers.items()}}
+    M = Machine(table, wrappers, stepm.token_classes(), lay, enums)
+    bounds = [(5, 3, ('integer', 'string')), (4, 3, ('integer', 'string', 'boolean', 'double', 'bytes'))] if tier == 'quick' else \
+        [(6, 3, ('integer', 'string')), (5, 3, ('integer', 'string', 'boolean', 'double', 'bytes'))]
+    jobs = min(16, os.cpu_count() or 4)
+    _G.update(M=M, enums=enums, bounds=bounds, tier=tier, jobs=jobs)
+    import multiprocessing as mp
+    import sys
+    sys.setrecursionlimit(20000)
+    with mp.get_context('fork').Pool(jobs) as pool:
+        parts = pool.map(_explore_part, range(jobs))
+    ndocs = states = edges = 0
+    bad = {}
+    for p_ in parts:
+        if 'broken' in p_:
+            raise AnalysisBroken(p_['broken'])
+        ndocs += p_['ndocs']
+        states += p_['states']
+        edges += p_['edges']
+        for k, v in p_['bad'].items():
+            if k not in bad or (len(v[3]), len(v[1]), v[1]) < (len(bad[k][3]), len(bad[k][1]), bad[k][1]):
+                bad[k] = v
+    need(ndocs >= 200, '%s: only %d documents explored' % (prop, ndocs))
+    cov.update({'documents': ndocs, 'product_states': states, 'calls_compared': edges,
+                'step_evaluations': stats['evaluations'], 'scan_modes': modes, 'level_flags': flags,
+                'bound': ['all object and array documents with at most %d values below the root, nesting <= %d, scalar kinds %s' % (n, d, list(sc)) for (n, d, sc) in bounds],
+                'max_depth_settings': 'exactly the nesting of the document' + (' and one more' if tier == 'thorough' else '')})
+    return bad, cov
+
+
 def run(rep, tier):
     with build.Scratch() as sc:
         lib, raws = sc.lib_ir('c06', defs=('BINSON_PARSER_WITH_PRINT',))
         mod = irload.load(lib)
-        lay = Layout(mod)
-        table, modes, stats = c08.extract(mod, lookups=False)
-        flags = stats['level_flags']
-        C = Contracts(mod, LibHooks())
-        enums = C._enums()
-        for k, e in KIND_ENUM.items():
-            need(e in enums, 'C06: enumerator %s not found in the debug info' % e)
-        tvals = sorted({v for n, v in enums.items() if n.startswith('BINSON_TYPE_')})
-        need(len(tvals) >= 8, 'C06: only %d binson_type enumerators found' % len(tvals))
-        wrappers = {}
-        for api in NAV.values():
-            wrappers[api] = wrapper_summary(mod, api, flags, tvals)
-        rep.coverage['wrappers'] = {api: sorted({(tuple(c[0] for c in p['calls']), p['ret']) for ps in w.values() for p in ps}, key=repr)[:12]
-                                    for api, w in wrappers.items()}
-        M = Machine(table, wrappers, stepm.token_classes(), lay, enums)
-        bounds = [(5, 3, ('integer', 'string')), (4, 3, ('integer', 'string', 'boolean', 'double', 'bytes'))] if tier == 'quick' else \
-            [(6, 3, ('integer', 'string')), (5, 3, ('integer', 'string', 'boolean', 'double', 'bytes'))]
-        jobs = min(16, os.cpu_count() or 4)
-        _G.update(M=M, enums=enums, bounds=bounds, tier=tier, jobs=jobs)
-        import multiprocessing as mp
-        import sys
-        sys.setrecursionlimit(20000)
-        with mp.get_context('fork').Pool(jobs) as pool:
-            parts = pool.map(_explore_part, range(jobs))
-        ndocs = states = edges = 0
-        bad = {}
-        for p_ in parts:
-            if 'broken' in p_:
-                raise AnalysisBroken(p_['broken'])
-            ndocs += p_['ndocs']
-            states += p_['states']
-            edges += p_['edges']
-            for k, v in p_['bad'].items():
-                if k not in bad or (len(v[3]), v[1]) < (len(bad[k][3]), bad[k][1]):
-                    bad[k] = v
-        need(ndocs >= 200, 'C06: only %d documents explored' % ndocs)
+        bad, cov = analyse(mod, tier)
+        rep.coverage.update(cov)
         for api in NAV:
             for what in ('error', 'result', 'depth', 'type', 'position'):
                 hit = bad.get((what, api))
@@ -559,10 +582,6 @@ def run(rep, tier):
                     rep.ob(False, 'cursor:%s:%s' % (api, what),
                            'C06 %s: %s - document %s (max_depth %d) after the calls %s' % (api, msg, doc, md, ' '.join(seq)),
                            'document: %s\ncall sequence: %s' % (doc, ' -> '.join(seq)))
-        rep.coverage.update({'documents': ndocs, 'product_states': states, 'calls_compared': edges,
-                             'step_evaluations': stats['evaluations'], 'scan_modes': modes, 'level_flags': flags,
-                             'bound': ['all object and array documents with at most %d values below the root, nesting <= %d, scalar kinds %s' % (n, d, list(sc)) for (n, d, sc) in bounds],
-                             'max_depth_settings': 'exactly the nesting of the document' + (' and one more' if tier == 'thorough' else '')})
     rep.coverage.update({
         'rule': 'product of the machine extracted from the code (step relation of the token loop + decision trees of next/go_into_*/leave_*/get_raw) '
                 'with a reference cursor over the decoded tree: on every reachable product state every protocol-following call agrees on result, '
